@@ -69,7 +69,7 @@ func VC12_SignedRegister() {
 	signer := vsym.Signer("k1")
 	serial := vsym.BytesN("serial", 2)
 	vsym.Assume(serial[0] != 0)
-	cert := vsym.Cert(signer, vsym.BytesN("cert.raw", 5), vsym.BytesN("issuer", 3), serial)
+	cert := vsym.Cert(signer, serial)
 	vsym.Assert(fs.WriteSignedUpdate(v, db, signer, cert) == nil, "signed update succeeds")
 	var got signature.SignatureDatabase
 	vsym.Assert(fs.GetVar(v, &got) == nil, "reading the variable after a signed update succeeds")
